@@ -3,14 +3,205 @@ Lean: Uft/Model/Asm.lean, Uft/Gen/Stubs.lean + Uft/Gen/HookShape.lean (translate
 stubs and the C hook wrappers on every run), Uft/Props/C01.lean.
 Tie: T (stubs, errno wrappers) + C (H1: errno and return-address observations of the real hooks)
 + runtime validation H5 (generated programs, native vs traced)."""
+import importlib.util
 import json
 import os
+import random
 import re
+import resource
 import shutil
+import time
 from concurrent.futures import ThreadPoolExecutor
 
 from lib import common as C, h1, mcgen, mcheck, progs
 from translators import asm2lean, shape2lean
+
+
+def _load_e2e():
+    spec = importlib.util.spec_from_file_location("c01_e2e", os.path.join(C.VERIF, "harness", "c01_e2e.py"))
+    m = importlib.util.module_from_spec(spec)
+    spec.loader.exec_module(m)
+    return m
+
+
+E = _load_e2e()
+
+
+def replay_obj(r, d, confirmed, params):
+    """everything needed to rerun one failing e2e case by hand"""
+    c = r["case"]
+    n, t = r["native"], r["traced"]
+    tc = r.get("traced_clean", t)
+    src = "harness/c01_w.c" if c["lang"] == "c" else "harness/c01_x.cc"
+    return {
+        "kind": "property-violated-on-implementation",
+        "what": "native and traced run of the same program differ in: " + ", ".join(d),
+        "differs": d, "confirmed_reruns": confirmed,
+        "e2e_case": c, "program": src, "also": ["harness/c01_common.h", "harness/c01_plug.c (as ./libc01plug.so)"],
+        "c01_params_h": params, "build_flags": [c["opt"], "-g"] + E.BUILDS[c["build"]] + (["-no-pie"] if c["build"] == "nop" else []) + (["-rdynamic"] if c["lang"] == "c" else []),
+        "program_args": r["args"], "record_opts": c["record_opts"], "traced_cmd": t.get("cmd"),
+        "native": {"rc": n["rc"], "stdout": n["stdout"][-1500:], "stderr": n["stderr"][-600:], "files": {k: v[:300] for k, v in n["files"].items()}},
+        "traced": {"rc": t["rc"], "uftrace_rc": t.get("uftrace_rc"), "stdout": tc["stdout"][-1500:], "stderr": tc["stderr"][-600:],
+                   "raw_stderr_tail": t["stderr"][-1200:], "files": {k: v[:300] for k, v in t["files"].items()}},
+        "first_difference": {"stdout": E.first_diff(n["stdout"], tc["stdout"]), "stderr": E.first_diff(n["stderr"], tc["stderr"])},
+        "how": "python3 check.py C01 --replay <this file>  (rebuilds the program from harness/ with c01_params_h and reruns both)",
+    }
+
+
+def finding_status(fid):
+    try:
+        kf = json.load(open(os.path.join(C.VERIF, "known_findings.json")))
+    except (OSError, ValueError):
+        return None, None
+    for f in kf.get("findings", []):
+        if f.get("property") == "C01" and f.get("id") == fid:
+            return f.get("status"), f
+    return None, None
+
+
+def classify_witnesses(ctx, dres, params, work):
+    """the directed witnesses of the listed findings: open + still differs -> KNOWN-FINDING; open + equal -> note;
+    fixed (or not listed at all) + differs -> VIOLATION with the concrete case"""
+    open_ids = {f.get("id"): f for f in C.known_findings("C01")}
+    by = {}
+    for fid, r in dres:
+        by.setdefault(fid, []).append(r)
+    out = {}
+    for fid in list(by) + [k for k in E.EXCLUDED_SHAPES if k not in by]:
+        rs = by.get(fid, [])
+        differing = [r for r in rs if r["diff0"]]
+        status, entry = finding_status(fid)
+        if fid in open_ids:
+            status = "open"
+        out[fid] = {"status": status or "not listed", "witness_runs": len(rs), "differ": len(differing),
+                    "cases": [" ".join(r["args"]) + " [" + r["case"]["build"] + r["case"]["opt"] + "] " + " ".join(r["case"]["record_opts"]) for r in rs]}
+        if status == "open":
+            if differing:
+                r = differing[0]
+                C.known(ctx, open_ids.get(fid, entry), "%s %s (witness: c01_%s %s built %s%s, uftrace record %s: differs in %s)" % (
+                    fid, (open_ids.get(fid, entry) or {}).get("what", E.EXCLUDED_SHAPES.get(fid, {}).get("what", ""))[:160],
+                    "w" if r["case"]["lang"] == "c" else "x", " ".join(r["args"]), r["case"]["build"], r["case"]["opt"],
+                    " ".join(r["case"]["record_opts"]) or "(no option)", ", ".join(x.split(":")[0] for x in r["diff0"])))
+            elif rs:
+                ctx.notes.append("finding %s no longer reproduces: its %d witness run(s) show no difference" % (fid, len(rs)))
+            else:
+                ctx.notes.append("finding %s: no witness could be run (build missing)" % fid)
+            continue
+        # fixed, or a shape nobody listed
+        if fid in E.EXCLUDED_SHAPES and status is None:
+            C.violation(ctx, "shape-" + fid, {"kind": "unlisted-shape", "what": "the e2e matrix leaves out shape %s but known_findings.json "
+                                              "has no entry for it" % fid, "shape": E.EXCLUDED_SHAPES[fid]["what"],
+                                              "witness_differs": bool(differing)}, no_failing_input=not differing)
+        for n, r in enumerate(differing[:2]):
+            confirmed = 0
+            last = r
+            for k in range(1 if "TIMEOUT" in (r["traced"]["rc"], r["native"]["rc"]) else 2):
+                r2 = E.run_case(ctx.src, r["exe"], r["case"], work, "w-%s-again%d" % (fid, k), None, timeout=25)
+                if E.differences(r2):
+                    confirmed += 1
+                    last = r2
+            if not confirmed:
+                ctx.notes.append("witness of %s differed once and not in the reruns" % fid)
+                continue
+            obj = replay_obj(last, E.differences(last), confirmed, params)
+            obj["what"] = "finding %s (%s in known_findings.json) is back: %s" % (fid, status or "not listed", obj["what"])
+            C.violation(ctx, "witness-%s-%d" % (fid, n), obj)
+    return out
+
+
+def run_matrix(ctx, rng, tier, work):
+    """H5, second generation: scenario programs x option families (harness/c01_e2e.py)"""
+    log = []
+    params = E.gen_params(rng)
+    flavours = ["pg", "cyg", "fentry", "patchable"] + (["nop"] if tier == "thorough" else [])
+    exes = E.build_all(work, params, flavours, ["-O0", "-O2"], log)
+    for l in log:
+        ctx.notes.append("e2e matrix: " + l[:300])
+    if not any(exes.values()):
+        C.violation(ctx, "e2e-build", {"kind": "harness-build-failed", "log": log[:3]}, True)
+        return None
+    cases, skipped = E.plan(rng, tier, exes)
+    cache = {}
+    t0 = time.time()
+    ndiff = [0]
+    STOP_AFTER = 24          # a broken tree fails (and hangs) in hundreds of cases: enough is enough
+
+    def one(ic):
+        i, c = ic
+        if ndiff[0] >= STOP_AFTER:
+            return None
+        r = E.run_case(ctx.src, exes[(c["lang"], c["build"], c["opt"])], c, work, "c%d" % i, cache)
+        r["diff0"] = E.differences(r)
+        if r["diff0"]:
+            ndiff[0] += 1
+        return r
+    directed = E.directed_cases(exes)
+
+    def one_directed(ic):
+        i, (fid, c) = ic
+        r = E.run_case(ctx.src, exes[(c["lang"], c["build"], c["opt"])], c, work, "w%d" % i, cache, timeout=25)
+        r["diff0"] = E.differences(r)
+        return fid, r
+    with ThreadPoolExecutor(12) as ex:
+        fut_d = [ex.submit(one_directed, ic) for ic in enumerate(directed)]      # the witnesses first: some of them hang
+        res_all = list(ex.map(one, enumerate(cases)))
+        dres = [f.result() for f in fut_d]
+    wit = classify_witnesses(ctx, dres, params, work)
+    res = [r for r in res_all if r is not None]
+    not_run = len(res_all) - len(res)
+    if not_run:
+        ctx.notes.append("e2e matrix: stopped after %d differing runs, %d planned cases not run" % (ndiff[0], not_run))
+    bad, flaky, noise = [], 0, {}
+    seen = set()
+    nviol = 0
+    for i, r in enumerate(res):
+        d = r["diff0"]
+        for k in r["noise"]:
+            noise[k] = noise.get(k, 0) + 1
+        if not d:
+            continue
+        c = r["case"]
+        key = (c["scenario"], c["variant"], c["build"], tuple(x.split(":")[0] for x in d))
+        if key in seen or nviol >= 6:
+            bad.append((r, d, None))
+            continue
+        # the machine is shared: confirm serially before calling it a violation
+        confirmed = 0
+        last = r
+        for k in range(1 if "TIMEOUT" in (r["traced"]["rc"], r["native"]["rc"]) else 2):
+            r2 = E.run_case(ctx.src, r["exe"], r["case"], work, "c%d-again%d" % (i, k), None)
+            if E.differences(r2):
+                confirmed += 1
+                last = r2
+        if confirmed == 0:
+            flaky += 1
+            ctx.notes.append("e2e matrix: a difference did not reproduce in 2 reruns: %s %s: %s" % (
+                c["scenario"], " ".join(c["record_opts"]), d))
+            continue
+        seen.add(key)
+        nviol += 1
+        bad.append((last, E.differences(last), confirmed))
+        C.violation(ctx, "e2e-%s-v%d-%s-%d" % (c["scenario"], c["variant"], c["build"], nviol), replay_obj(last, E.differences(last), confirmed, params))
+    wrapped = {}
+    for fn, scs in E.WRAPPED.items():
+        n = sum(1 for r in res if r["case"]["scenario"] in scs)
+        if n:
+            wrapped[fn] = {"scenarios": scs, "runs": n}
+    matrix = {}
+    for r in res:
+        c = r["case"]
+        row = matrix.setdefault(c["construct"], {})
+        row[c["family"]] = row.get(c["family"], 0) + 1
+    return {
+        "witnesses": wit,
+        "runs": len(res), "bad": len(bad), "unreproduced": flaky, "wall_s": round(time.time() - t0, 1),
+        "distinct": len({(r["case"]["scenario"], r["case"]["variant"], r["case"]["depth"], r["case"]["rounds"], r["case"]["build"], r["case"]["opt"],
+                          tuple(r["case"]["record_opts"])) for r in res}),
+        "wrapped": wrapped, "matrix": matrix, "skipped": skipped, "noise": noise,
+        "builds": sorted({"%s %s%s" % (k[0], k[1], k[2]) for k, v in exes.items() if v}),
+        "samples": [{"e2e_matrix": {"args": r["args"], "build": r["case"]["build"] + r["case"]["opt"], "record_opts": r["case"]["record_opts"],
+                                    "native_rc": r["native"]["rc"], "tracee_rc": r["traced"]["rc"]}} for r in res[:3]],
+    }
 
 
 def run(ctx):
@@ -117,20 +308,50 @@ def run(ctx):
                     "program": keep, "build": [r["flavour"], r["opt"]], "record_opts": r["record_opts"],
                     "native": [r["native_rc"], r["native_out"][:300]], "traced": [r["tracee_rc"], r["traced_out"][:300]],
                     "stderr": r["stderr"]})
+    # ---- H5, second generation: wrapped libc functions; option matrix x non-local control flow ----
+    resource.setrlimit(resource.RLIMIT_CORE, (0, resource.getrlimit(resource.RLIMIT_CORE)[1]))
+    mx = run_matrix(ctx, rng, ctx.tier, os.path.join(ctx.scratch, "e2e2"))
+    if mx:
+        e2e_bad += mx["bad"]
     if not proof_ok:
         C.violation(ctx, "proof", {"kind": "proof-obligation-broken", "problems": problems[:12],
                                    "searched": "H1 %d hook calls (bad: %d); e2e %d runs (bad: %d)" % (
-                                       hook_calls, len(h1_bad), len(e2e), e2e_bad)},
+                                       hook_calls, len(h1_bad), len(e2e) + (mx["runs"] if mx else 0), e2e_bad)},
                     no_failing_input=(not h1_bad and not e2e_bad))
     ctx.coverage.update({
-        "evaluations": len(cases) + len(e2e), "distinct_nontrivial": len(cases) + len({(r["prog"], r["flavour"], r["opt"], tuple(r["record_opts"])) for r in e2e}),
+        "evaluations": len(cases) + len(e2e) + (mx["runs"] if mx else 0),
+        "distinct_nontrivial": len(cases) + len({(r["prog"], r["flavour"], r["opt"], tuple(r["record_opts"])) for r in e2e}) + (mx["distinct"] if mx else 0),
         "rule": "H1: random hook scripts x option sets x buffer sizes, every hook call observed for errno and (for -pg) the returned "
                 "address; H5: generated C programs over the signature classes (int, double/float, long double, struct of two doubles, "
                 "struct of two longs, memory-returned struct, mixed struct, double complex, variadic, errno, recursion; 1 or 3 threads) "
                 "built -pg / -finstrument-functions / -pg -mfentry at -O0/-O2, run natively and under `uftrace record` with several "
-                "option sets; stdout and the tracee's exit status compared",
+                "option sets; stdout and the tracee's exit status compared; H5 second generation (harness/c01_e2e.py): scenario "
+                "programs (C: harness/c01_w.c + dlopen()ed c01_plug.c, C++: c01_x.cc; constants, arrays, thrown values and exit "
+                "codes from c01_params.h generated per seed) that observe the libc functions libmcount interposes (close/dup on "
+                "descriptors 0-2, dlopen/dlclose, pthread_exit, posix_spawn*/exec*/fexecve, fork/vfork, __cxa_*/_Unwind_Resume) "
+                "and exercise non-local control flow through library calls (setjmp/longjmp, longjmp/exit/C++ throw out of "
+                "qsort/bsearch/lfind/twalk/qsort_r/std::sort call-backs, signal handlers with siglongjmp/sigaltstack, timer "
+                "signals, vfork+exec, fork, daemon, pthread_exit, exit/_exit/quick_exit/abort/kill, throwing static initialisers, "
+                "std::terminate, fenv state), each below 0-3 extra instrumented frames and repeated 2-3 rounds, built "
+                "-pg / -finstrument-functions / -pg -mfentry / -fpatchable-function-entry (+ -P .) at -O0/-O2, crossed with "
+                "option families of `uftrace record` (complete -D sweep for the non-local constructs, -F/-N/-C/-H on the "
+                "program's own and on library functions, -t, -A/-R/-a, --no-libcall, --nest-libcall, -e, -b, --max-stack, "
+                "-T trace_off/depth/backtrace/time/recover, --no-pltbind, --force, --trace=off, --clock, --logfile, -v, with and "
+                "without --no-event, -E, --signal, -l, -Z, -L); each run in a fresh working directory; stdout, stderr, the "
+                "tracee's exit status (from the info file) and every file written are compared after removing uftrace's own "
+                "WARN:/uftrace: diagnostics; a difference is re-run twice before it counts",
         "h1_hook_calls": hook_calls, "h1_bad": len(h1_bad), "e2e_runs": len(e2e), "e2e_bad": e2e_bad,
-        "samples": [{"e2e": {k: r[k] for k in ("prog", "flavour", "opt", "record_opts", "native_rc", "tracee_rc")}} for r in e2e[:3]],
+        "samples": [{"e2e": {k: r[k] for k in ("prog", "flavour", "opt", "record_opts", "native_rc", "tracee_rc")}} for r in e2e[:3]] + (mx["samples"] if mx else []),
+        "e2e_matrix_runs": mx["runs"] if mx else 0, "e2e_matrix_bad": mx["bad"] if mx else None,
+        "e2e_matrix_unreproduced_differences": mx["unreproduced"] if mx else None, "e2e_matrix_wall_s": mx["wall_s"] if mx else None,
+        "e2e_matrix_builds": mx["builds"] if mx else [],
+        "wrapped_libc_functions_exercised": mx["wrapped"] if mx else {},
+        "option_family_x_control_flow_construct_runs": mx["matrix"] if mx else {},
+        "shapes_left_out_of_the_matrix": {k: {"cases_skipped": (mx["skipped"].get(k, 0) if mx else 0), "what": v["what"]} for k, v in E.EXCLUDED_SHAPES.items()},
+        "directed_witnesses_of_listed_findings": mx["witnesses"] if mx else {},
+        "option_families_not_run": ["-T f@finish (uftrace leaves before the tracee ends: its exit status is not recorded)",
+                                    "-k/--kernel, -S script, --host (need tracefs / interpreters / a receiver)"],
+        "uftrace_diagnostics_removed_before_comparison": mx["noise"] if mx else {},
         "exhaustive": False,
     })
     ctx.assumptions += [
@@ -143,5 +364,29 @@ def run(ctx):
 
 
 def replay(ctx, path):
-    print(json.dumps(json.load(open(path)), indent=1)[:6000])
-    return 0
+    obj = json.load(open(path))
+    if "e2e_case" not in obj:
+        print(json.dumps(obj, indent=1)[:6000])
+        return 0
+    ctx.snapshot()
+    okb, blog = ctx.make()
+    if not okb:
+        print("build failed: " + blog[-2000:])
+        return 1
+    resource.setrlimit(resource.RLIMIT_CORE, (0, resource.getrlimit(resource.RLIMIT_CORE)[1]))
+    c = obj["e2e_case"]
+    work = os.path.join(ctx.scratch, "replay")
+    log = []
+    exes = E.build_all(work, obj["c01_params_h"], [c["build"]], [c["opt"]], log)
+    exe = exes.get((c["lang"], c["build"], c["opt"]))
+    if not exe:
+        print("program build failed: %s" % log)
+        return 1
+    r = E.run_case(ctx.src, exe, c, work, "replay", None)
+    d = E.differences(r)
+    print("case: %s  record options: %s" % (" ".join(r["args"]), " ".join(c["record_opts"]) or "(none)"))
+    print("traced command: " + r["traced"]["cmd"])
+    print("native: rc=%s\n%s--- stderr\n%s" % (r["native"]["rc"], r["native"]["stdout"][-2000:], r["native"]["stderr"][-800:]))
+    print("traced: rc=%s\n%s--- stderr\n%s" % (r["traced"]["rc"], r["traced_clean"]["stdout"][-2000:], r["traced"]["stderr"][-1500:]))
+    print("DIFFERS in: %s" % d if d else "no difference on this tree")
+    return 1 if d else 0
